@@ -5,6 +5,8 @@ package arbitrator
 import (
 	"context"
 	"fmt"
+	"os"
+	"path/filepath"
 	"sort"
 	"strings"
 	"sync"
@@ -32,6 +34,8 @@ import (
 	"sigs.k8s.io/controller-runtime/pkg/reconcile"
 
 	"github.com/koordinator-sh/koordinator/apis/scheduling/v1alpha1"
+	deschedulerappconfig "github.com/koordinator-sh/koordinator/cmd/koord-descheduler/app/config"
+	"github.com/koordinator-sh/koordinator/cmd/koord-descheduler/app/options"
 	"github.com/koordinator-sh/koordinator/pkg/descheduler/apis/config"
 	evictionsutil "github.com/koordinator-sh/koordinator/pkg/descheduler/evictions"
 	"github.com/koordinator-sh/koordinator/pkg/descheduler/fieldindex"
@@ -169,6 +173,103 @@ type c16World struct {
 	inRound, eager, flushing bool
 	written                  []int // job ids written in this round and not echoed yet
 	echoed                   []int // job ids echoed in this round, in order
+	// via: the MigrationControllerArgs are not built as a Go struct but written into a v1alpha2 DeschedulerConfiguration file
+	// (plugin config of the MigrationController) and read back by the start-up path of cmd/koord-descheduler; declMn is the
+	// per-node limit as written (-1 = key absent; the world's mn is then the documented default 2)
+	via    bool
+	declMn int
+}
+
+var c16TmpDir string
+
+// c16ArgsViaFile: options.NewOptions + Options.ApplyTo on a generated file (decode, defaulting, conversion, validation); the
+// args are those of profile 0's MigrationController plugin config, as the plugin factory receives them
+func (w *c16World) c16ArgsViaFile() *config.MigrationControllerArgs {
+	var b strings.Builder
+	b.WriteString("apiVersion: descheduler/v1alpha2\nkind: DeschedulerConfiguration\nprofiles:\n- name: koord-descheduler\n  pluginConfig:\n  - name: MigrationController\n    args:\n")
+	b.WriteString("      apiVersion: descheduler/v1alpha2\n      kind: MigrationControllerArgs\n      defaultJobMode: EvictDirectly\n")
+	i32 := func(key string, v int) {
+		if v >= 0 {
+			fmt.Fprintf(&b, "      %s: %d\n", key, v)
+		}
+	}
+	i32("maxMigratingGlobally", w.mg)
+	i32("maxMigratingPerNode", w.declMn)
+	i32("maxMigratingPerNamespace", w.ms)
+	ios := func(key string, kind, v int) {
+		switch {
+		case kind == 1:
+			fmt.Fprintf(&b, "      %s: \"%d%%\"\n", key, v)
+		case v >= 0:
+			fmt.Fprintf(&b, "      %s: %d\n", key, v)
+		}
+	}
+	ios("maxMigratingPerWorkload", w.mmKind, w.mm)
+	ios("maxUnavailablePerWorkload", w.muKind, w.mu)
+	if w.skipCER {
+		b.WriteString("      skipCheckExpectedReplicas: true\n")
+	}
+	if len(w.skip) > 0 {
+		b.WriteString("      skipEvictionGates:\n")
+		for _, g := range w.skip {
+			fmt.Fprintf(&b, "      - %s\n", string(c16GateNames[g]))
+		}
+	}
+	path := filepath.Join(c16TmpDir, "arb-args.yaml")
+	if err := os.WriteFile(path, []byte(b.String()), 0o644); err != nil {
+		panic(err)
+	}
+	o := options.NewOptions()
+	o.ConfigFile = path
+	o.SecureServing.BindPort = 0
+	o.CombinedInsecureServing = nil
+	c := &deschedulerappconfig.Config{}
+	if err := o.ApplyTo(c); err != nil {
+		panic(fmt.Sprintf("c16: generated MigrationControllerArgs rejected: %v\n%s", err, b.String()))
+	}
+	for _, pc := range c.ComponentConfig.Profiles[0].PluginConfig {
+		if a, ok := pc.Args.(*config.MigrationControllerArgs); ok && pc.Name == "MigrationController" {
+			return a
+		}
+	}
+	panic("c16: decoded configuration has no MigrationControllerArgs")
+}
+
+// observation of the decoded limits, in the model's encoding (-1 = nil; per-workload: kind 0 nil / int, 1 percent, 2 other string)
+func c16ShowArgs(a *config.MigrationControllerArgs) string {
+	p32 := func(p *int32) int {
+		if p == nil {
+			return -1
+		}
+		return int(*p)
+	}
+	ios := func(p *intstr.IntOrString) (int, int) {
+		if p == nil {
+			return 0, -1
+		}
+		if p.Type == intstr.Int {
+			return 0, int(p.IntVal)
+		}
+		var v int
+		if n, err := fmt.Sscanf(p.StrVal, "%d%%", &v); n == 1 && err == nil && strings.HasSuffix(p.StrVal, "%") {
+			return 1, v
+		}
+		return 2, 0
+	}
+	mk, mm := ios(a.MaxMigratingPerWorkload)
+	uk, mu := ios(a.MaxUnavailablePerWorkload)
+	out := fmt.Sprintf("arbcfg %d %d %d %d %d %d %d %d %d", p32(a.MaxMigratingGlobally), p32(a.MaxMigratingPerNode), p32(a.MaxMigratingPerNamespace),
+		mk, mm, uk, mu, vB(a.SkipCheckExpectedReplicas != nil && *a.SkipCheckExpectedReplicas), len(a.SkipEvictionGates))
+	for _, g := range a.SkipEvictionGates {
+		code := 0
+		for c, n := range c16GateNames {
+			if n == g {
+				code = c
+			}
+		}
+		out += fmt.Sprintf(" %d", code)
+	}
+	return out
 }
 
 func (w *c16World) noteWrite(obj client.Object) {
@@ -259,9 +360,12 @@ func c16IntStrK(kind, v int, bad string) *intstr.IntOrString {
 	return c16IntStr(v)
 }
 
-func c16NewWorld(h *vHarness, cfg c16Cfg, badStr string, replicas map[int]int) *c16World {
+func c16NewWorld(h *vHarness, cfg c16Cfg, badStr string, replicas map[int]int, via bool) *c16World {
 	w := &c16World{h: h, failUpd: map[string]bool{}, pods: map[int]*c16PodS{}, jobs: map[int]*c16JobS{}, replicas: replicas,
-		c16Cfg: cfg, badStr: badStr, stale: map[int]bool{}}
+		c16Cfg: cfg, badStr: badStr, stale: map[int]bool{}, via: via, declMn: cfg.mn}
+	if via && w.mn < 0 {
+		w.mn = 2 // documented default of maxMigratingPerNode; what the oracle judges against
+	}
 	scheme := runtime.NewScheme()
 	_ = v1alpha1.AddToScheme(scheme)
 	_ = clientgoscheme.AddToScheme(scheme)
@@ -333,6 +437,9 @@ func (w *c16World) newArb() {
 	}
 	for _, g := range w.skip {
 		args.SkipEvictionGates = append(args.SkipEvictionGates, c16GateNames[g])
+	}
+	if w.via {
+		args = w.c16ArgsViaFile()
 	}
 	rep := map[string]int32{}
 	for k, v := range w.replicas {
@@ -747,6 +854,7 @@ func TestVerifC16Arb(t *testing.T) {
 	if h == nil {
 		t.Skip("VERIF_OUT not set")
 	}
+	c16TmpDir = t.TempDir()
 	n := h.N(300, 3600)
 	for idx := 0; idx < n; idx++ {
 		r := h.Begin(idx)
@@ -783,13 +891,15 @@ func TestVerifC16Arb(t *testing.T) {
 		"(deletionTimestamp, Ready or not), phase Pending / Succeeded / Failed, 1/10 with the evict annotation; limits global/node/namespace in {nil,0,1,2,3}, per-workload " +
 		"nil / int / percent / malformed string, SkipEvictionGates subsets 1/5, SkipCheckExpectedReplicas 1/8), 0-4 pre-existing jobs (running / passed / finished / waiting / " +
 		"dangling pod / nil PodRef; PodRef shape of a directly created job: UID + namespace/name 1/2, namespace/name only 1/5, UID only 1/10, stale UID + right name 3/20, " +
-		"UID of one pod + name of another 1/20 (makes WF false)), then 6-14 ops: job created by somebody else with a partial PodRef (1/20), create-through-Filter (1/3 aimed at " +
+		"UID of one pod + name of another 1/20 (makes WF false)); in 1/3 of the cases with well-formed per-workload limits the MigrationControllerArgs are written into a " +
+		"v1alpha2 configuration file (limits absent when nil, percent strings, skipEvictionGates, skipCheckExpectedReplicas) and read back through options.ApplyTo (decode, defaulting: " +
+		"maxMigratingPerNode absent = 2, conversion, validation) instead of being a Go literal; then 6-14 ops: job created by somebody else with a partial PodRef (1/20), create-through-Filter (1/3 aimed at " +
 		"a pod that already has an open job), arbitration round (1/6 with a failing Update), phase changes through the event handler, pod deletion, " +
 		"readiness flips, pod becomes terminating / changes phase, controller restart (new arbitrator, Create event per job), informer resync (Update event for every job), " +
 		"job deletion (API delete + Delete event), one-step phase moves of arbitrated jobs (\"\" -> Pending -> Running -> ended). Every job creation reaches the arbitrator as a Create event through the real arbitrationHandler and every " +
 		"write the arbitrator makes during a round (passed annotation, Failed status) is echoed back as an Update event with the object the fake client holds, either before the " +
 		"arbitrator's next job List (op roundx, 1/2) or after the round (op upd). Handler stream (120 / 1500 extra cases): 5-8 Ready pods of one workload (20 or 40 replicas) in one " +
-		"namespace on 1-2 nodes, exactly one or two of the global / per-node / per-namespace / per-workload limits set to 1-2, 3-6 waiting jobs of phase \"\" (3/4) or Pending created up front, " +
+		"namespace on 1-2 nodes, one or two of the global / per-node / per-namespace / per-workload limits set to 1-2 or (1/5) none declared and the args read from a file so that the default per-node limit 2 binds, 3-6 waiting jobs of phase \"\" (3/4) or Pending created up front, " +
 		"then rounds / resyncs / phase moves (\"\" -> Pending -> Running -> terminal) / deletions. Every third case is the headroom stream: one workload of " +
 		"4-8 replicas, small maxUnavailable, 1-3 replicas unavailable in the different ways, waiting jobs on the others. " +
 		"Non-trivial = some round both admitted a job and left one waiting")
@@ -918,6 +1028,7 @@ func c16ArbCase(h *vHarness, r *vRand, headroom bool, fx *c16Forced, hs bool) {
 		}
 	}
 	var cfg c16Cfg
+	forceVia := false
 	cfg.mg, cfg.mn, cfg.ms = pickLim(), pickLim(), pickLim()
 	cfg.mmKind, cfg.mm = pickWl()
 	cfg.muKind, cfg.mu = pickWl()
@@ -967,7 +1078,9 @@ func c16ArbCase(h *vHarness, r *vRand, headroom bool, fx *c16Forced, hs bool) {
 	if hs {
 		cfg = c16Cfg{mg: -1, mn: -1, ms: -1, mm: 10, mu: 10} // per-workload limits far from binding unless chosen below
 		for k, n := 0, r.Range(1, 2); k < n; k++ {
-			switch r.Intn(4) {
+			switch r.Intn(5) {
+			case 4: // nothing declared: the binding limit is the documented default of maxMigratingPerNode, which only a file gives
+				forceVia = true
 			case 0:
 				cfg.mg = r.Range(1, 2)
 			case 1:
@@ -999,7 +1112,16 @@ func c16ArbCase(h *vHarness, r *vRand, headroom bool, fx *c16Forced, hs bool) {
 	for wl := 1; wl <= 3; wl++ {
 		h.Op("wl %d %d", wl, replicas[wl])
 	}
-	w := c16NewWorld(h, cfg, badStr, replicas)
+	// 1/3 of the cases (when both per-workload limits are well-formed; a malformed one makes the start-up reject the file)
+	// get their MigrationControllerArgs through a configuration file and the start-up path instead of a Go literal
+	via := fx == nil && cfg.mmKind != 2 && cfg.muKind != 2 && (r.Chance(1, 3) || forceVia)
+	w := c16NewWorld(h, cfg, badStr, replicas, via)
+	if via {
+		h.Op("cfgvia")
+		h.Obs("%s", c16ShowArgs(w.a.filter.args))
+		h.Tag("cfg:via-file")
+		h.Tag(fmt.Sprintf("cfg:via-file,mn-declared=%d", c16Min(cfg.mn, 1)))
+	}
 	ctx := context.TODO()
 	// a pod state: how a replica can be unavailable
 	podState := func(p *c16PodS, unavailable bool) {
